@@ -6,7 +6,7 @@ repo = sys.argv[1] if len(sys.argv) > 1 else '/repo'
 base = json.load(open('/root/.vp/BASELINE.json'))
 want = set(base['stable_pass'])
 fd, path = tempfile.mkstemp(suffix='.xml'); os.close(fd)
-env = dict(os.environ); env.pop('PYTHONPATH', None)
+env = dict(os.environ); env['PYTHONPATH'] = repo
 subprocess.run(['/venv/bin/python', '-m', 'pytest', '-q', '-p', 'no:cacheprovider', '--timeout=900',
                 '--continue-on-collection-errors', '--junitxml=' + path], cwd=repo, env=env,
                stdout=subprocess.DEVNULL, stderr=subprocess.DEVNULL)
